@@ -21,7 +21,7 @@ HARNESSES = [
     {"fn": "h_id", "cases": ["", "0x"], "timeout": {"quick": 90, "thorough": 300}},
     {"fn": "h_src", "cases": ["q2", "q3", "q0:long", "q0:full32"], "quick_cases": ["q2", "q0:full32"], "timeout": {"quick": 90, "thorough": 300}},
     {"fn": "h_src_exclude", "cases": ["c10"], "timeout": {"quick": 90, "thorough": 300}},
-    {"fn": "h_src_exclude_lines", "cases": ["fwd", "rev"], "timeout": {"quick": 90, "thorough": 300}},
+    {"fn": "h_src_exclude_lines", "cases": ["fwd", "rev", "fwd:csv"], "timeout": {"quick": 90, "thorough": 300}},
 ]
 BOUNDS = {"plid / id": "stored and queried ids symbolic over all 32-bit values; 3 prefix spellings x symbolic digit case",
           "bmc id": "stored id symbolic over 0..2^32-1, queried id symbolic per decimal digit count 1..10, queried in decimal",
@@ -238,7 +238,10 @@ def h_src_exclude_lines() -> bool:
     codes = ["BD8D1002", "BD8D1003", "11002030"]
     inc = [bool(sym_bool("in%d" % i)) for i in range(3)]
     content = "".join(c + "\n" for c, k in zip(codes, inc) if k)
-    files = [("%s_5000000%d" % ("cba"[i] if CASE == "rev" else "abc"[i], i + 1),
+    if CASE.endswith(":csv"):
+        # a code is excluded when it occurs in the file text - also comma-separated on one line with a comment
+        content = "exclude:" + ",".join(c for c, k in zip(codes, inc) if k) + " # noise"
+    files = [("%s_5000000%d" % ("cba"[i] if CASE.startswith("rev") else "abc"[i], i + 1),
               pb.PEL(pb.SRC(ascii=codes[i].encode()), ph=dict(eid=0x50000001 + i))) for i in range(3)]
     w = World(files=files, extra={"/etc/excl": content})
     ns = Namespace(**dict(ARG_DEFAULTS, path="/pels", skip_plugins=True, src_exclude_file="/etc/excl", reverse=bool(sym_bool("reverse"))))
